@@ -413,7 +413,7 @@ def c09_universe_sets(rng, tier):
         sets.append([ev(0, kind, t) for t in (10, 5, 20)])
     for kind in (30000, 39999):
         sets.append([ev(0, kind, t, dtag("a")) for t in (10, 5, 20)])
-    n = 14 if tier == "quick" else 250
+    n = 14 if tier == "quick" else 150
     for _ in range(n):
         kind = rng.choice([0, 3, 1, 10000, 19999, 20000, 30000, 39999, 40000])
         who = rng.randrange(2)
@@ -459,7 +459,7 @@ def suites_c09(tier, seed):
     run_histories(s1, hs, classes={"replace_keeps_older", "store_frame_broken", "tags_incoherent"}, nontrivial=removed_something)
     s2 = Suite("corr:sql-submit/replace-random")
     s2.rule = "random histories (8-25 submissions) over 3 authors x 13 kinds x d-values x timestamp grid with resubmissions; as above"
-    n = 25 if tier == "quick" else 600
+    n = 25 if tier == "quick" else 400
     hs = [gen_history(rng, rng.randint(8, 25)) for _ in range(n)]
     run_histories(s2, hs, classes={"replace_keeps_older", "store_frame_broken", "tags_incoherent"}, nontrivial=removed_something)
     return [s1, s2]
@@ -553,7 +553,7 @@ def suites_c07(tier, seed):
               "statement index k of every event: OperationalError injected at the k-th cursor execution, dump compared with the "
               "model's prediction (= state before), history continued; BEGIN/COMMIT/ROLLBACK/notify order compared; "
               "non-trivial = a fault fired inside a transaction that had already executed a mutation")
-    n = 7 if tier == "quick" else 120
+    n = 7 if tier == "quick" else 70
     hs = []
     for _ in range(n):
         base = gen_history(rng, rng.randint(4, 9))
